@@ -103,6 +103,18 @@ def search(ck):
     """Something no longer checks: look for a concrete history on which the property itself fails
     (implementation-level oracle: shadow ownership, byte patterns, conservation, class round trip)."""
     found = list(ck.oracle_fails)
+    # the pool's own debug assertions firing on a history the model accepts (a legal history: every release is of a
+    # live buffer with its size) is a failure of the property in its own right — in a release build the same
+    # history corrupts silently (seed C12-d1: "free-list slot was not properly poisoned")
+    panics = [d for d in ck.disagreements if d["impl"].startswith("panic") and not d["model"].startswith(("bad", "panic"))]
+    if not found and panics:
+        f = min(panics, key=lambda x: len(x["history"]))
+        ck.report_violation({"kind": "impl-vs-oracle", "family": "pool",
+                             "what": "the pool panics on a legal history (its own assertion; the model answers "
+                                     + f["model"][:80] + ")", "requests": f["history"],
+                             "replay_cmd": "./check C12 --replay <this file>",
+                             "broken": ck.broken[:5], "disagreements": ck.disagreements[:3]})
+        return
     if not found:
         budget = 20000 if ck.tier == "quick" else 300000
         for shift in (101, 202):
